@@ -432,4 +432,575 @@ theorem sendIq_nc (s : St) (h : NC s) : NCout (sendIq s).2 ∧ NC (sendIq s).1 :
   · exact ⟨NCout.append r.1 (NCout.cons (sig_nc _) NCout.nil), r.2⟩
   · exact ⟨r.1, nc_upd r.2 rfl rfl⟩
 
+/-! ### the configuration never changes -/
+
+macro "cfg_crush" : tactic => `(tactic| ((repeat' split) <;> simp))
+
+@[simp] theorem sendStanza_cfg (s : St) (k : Kind) : (sendStanza s k).1.cfg = s.cfg := by
+  unfold sendStanza; split <;> rfl
+@[simp] theorem enableAck_cfg (s : St) : (enableAck s).1.cfg = s.cfg := rfl
+@[simp] theorem closeSession_cfg (s : St) : (closeSession s).1.cfg = s.cfg := rfl
+@[simp] theorem onSocketDisconnected_cfg (s : St) : (onSocketDisconnected s).1.cfg = s.cfg := by
+  unfold onSocketDisconnected; dsimp only; split <;> simp
+@[simp] theorem socketClose_cfg (s : St) : (socketClose s).1.cfg = s.cfg := by
+  unfold socketClose; split <;> simp
+@[simp] theorem disconnectFromHost_cfg (s : St) : (disconnectFromHost s).1.cfg = s.cfg := by
+  unfold disconnectFromHost; simp
+@[simp] theorem reject_cfg (s : St) : (reject s).1.cfg = s.cfg := by unfold reject; simp
+@[simp] theorem failAuth_cfg (s : St) : (failAuth s).1.cfg = s.cfg := by unfold failAuth; simp
+@[simp] theorem csiSendState_cfg (s : St) : (csiSendState s).1.cfg = s.cfg := by
+  unfold csiSendState; split <;> rfl
+@[simp] theorem csiOnSessionOpened_cfg (s : St) (b : Bool) : (csiOnSessionOpened s b).1.cfg = s.cfg := by
+  unfold csiOnSessionOpened; cfg_crush
+@[simp] theorem openSession_cfg (s : St) : (openSession s).1.cfg = s.cfg := by
+  unfold openSession; dsimp only; cfg_crush
+@[simp] theorem handleStart_cfg (s : St) : (handleStart s).1.cfg = s.cfg := rfl
+@[simp] theorem startNonSaslAuth_cfg (s : St) : (startNonSaslAuth s).1.cfg = s.cfg := rfl
+@[simp] theorem handleStream_cfg (s : St) (v i : Bool) : (handleStream s v i).1.cfg = s.cfg := by
+  unfold handleStream; dsimp only; cfg_crush
+@[simp] theorem startSasl_cfg (s : St) (m : Mech) : (startSasl s m).1.cfg = s.cfg := by
+  unfold startSasl; split <;> simp
+@[simp] theorem startSasl2_cfg (s : St) (z : S2Feat) : (startSasl2 s z).1.cfg = s.cfg := by
+  unfold startSasl2; dsimp only; cfg_crush
+@[simp] theorem startBind_cfg (s : St) : (startBind s).1.cfg = s.cfg := rfl
+@[simp] theorem startSmEnable_cfg (s : St) : (startSmEnable s).1.cfg = s.cfg := rfl
+@[simp] theorem startSmResume_cfg (s : St) : (startSmResume s).1.cfg = s.cfg := rfl
+theorem handleStarttls_cfg (s : St) (f : Features) : ∀ r, handleStarttls s f = some r → r.1.cfg = s.cfg := by
+  intro r hr
+  unfold handleStarttls at hr
+  repeat' split at hr
+  all_goals first | (cases hr; done) | (cases hr; simp)
+@[simp] theorem handleFeatures_cfg (s : St) (f : Features) : (handleFeatures s f).1.cfg = s.cfg := by
+  unfold handleFeatures
+  split
+  · rename_i r hr; exact handleStarttls_cfg s f r hr
+  · split
+    · simp
+    · split
+      · simp
+      · split
+        · simp
+        · dsimp only
+          cfg_crush
+@[simp] theorem onSmEnabled_cfg (s : St) (b : Bool) : (onSmEnabled s b).1.cfg = s.cfg := rfl
+@[simp] theorem onSmResumed_cfg (s : St) : (onSmResumed s).1.cfg = s.cfg := rfl
+@[simp] theorem idleHandle_cfg (s : St) (e : El) : (idleHandle s e).1.cfg = s.cfg := by
+  unfold idleHandle; cfg_crush
+@[simp] theorem starttlsHandle_cfg (s : St) (e : El) : (starttlsHandle s e).1.cfg = s.cfg := by
+  unfold starttlsHandle; cfg_crush
+@[simp] theorem nonSaslHandle_cfg (s : St) (e : El) : (nonSaslHandle s e).1.cfg = s.cfg := by
+  unfold nonSaslHandle; cfg_crush
+@[simp] theorem saslHandle_cfg (s : St) (m : Used) (fr : Bool) (e : El) : (saslHandle s m fr e).1.cfg = s.cfg := by
+  unfold saslHandle; cfg_crush
+@[simp] theorem sasl2Handle_cfg (s : St) (m : Used) (fr : Bool) (e : El) : (sasl2Handle s m fr e).1.cfg = s.cfg := by
+  unfold sasl2Handle; dsimp only; cfg_crush
+@[simp] theorem smResumeHandle_cfg (s : St) (e : El) : (smResumeHandle s e).1.cfg = s.cfg := by
+  unfold smResumeHandle; cfg_crush
+@[simp] theorem smEnableHandle_cfg (s : St) (e : El) : (smEnableHandle s e).1.cfg = s.cfg := by
+  unfold smEnableHandle; cfg_crush
+@[simp] theorem bindHandle_cfg (s : St) (e : El) : (bindHandle s e).1.cfg = s.cfg := by
+  unfold bindHandle; cfg_crush
+@[simp] theorem dispatch_cfg (s : St) (e : El) : (dispatch s e).1.cfg = s.cfg := by
+  unfold dispatch; split <;> simp
+@[simp] theorem recv_cfg (s : St) (e : El) : (recv s e).1.cfg = s.cfg := by
+  unfold recv; cfg_crush
+@[simp] theorem sendIq_cfg (s : St) : (sendIq s).1.cfg = s.cfg := by
+  unfold sendIq; dsimp only; split <;> simp
+@[simp] theorem step_cfg (s : St) (e : Ev) : (step s e).1.cfg = s.cfg := by
+  unfold step; cfg_crush
+@[simp] theorem run_cfg (evs : List Ev) (s : St) : (run s evs).1.cfg = s.cfg := by
+  induction evs generalizing s with
+  | nil => rfl
+  | cons e es ih => simp [run, ih]
+
+/-! ### the unencrypted phase when TLS is required -/
+
+/-- the listener is the idle one or the one waiting for `<proceed/>` -/
+def PreTls (s : St) : Prop := s.listener = .idle ∨ s.listener = .starttls
+
+/-- invariant: either nothing can reach the wire in clear, or negotiation has not gone past STARTTLS -/
+def Inv (s : St) : Prop := NC s ∨ PreTls s
+
+/-- **H1 "every header carries a version"**: a stream header received while the link is connected and unencrypted has a
+`version` attribute -/
+def versionedHeader (s : St) : Ev → Prop
+  | .recv (.header v _) => NC s ∨ v = true
+  | _ => True
+
+/-- **H2 "no IQ request arrives before encryption"**: no `<iq type=get|set>` is received while the link is connected and
+unencrypted -/
+def noEarlyIqRequest (s : St) : Ev → Prop
+  | .recv (.iq (.get _)) => NC s
+  | .recv (.iq .set) => NC s
+  | _ => True
+
+/-- **H3 (scope)**: the application itself does not send requests over an unencrypted link and calls `connectToServer`
+only while disconnected (the property quantifies over servers, not over applications) -/
+def appWaits (s : St) : Ev → Prop
+  | .sendIq => NC s
+  | .connectToServer => s.conn = .disconnected
+  | _ => True
+
+/-- a predicate holds at every step of a run -/
+def Along (P : St → Ev → Prop) : St → List Ev → Prop
+  | _, [] => True
+  | s, e :: es => P s e ∧ Along P (step s e).1 es
+
+theorem nil_ok : ∀ o ∈ ([] : List Out), o.clearOk := by intro o ho; cases ho
+theorem sig_ok (x : Signal) : ∀ o ∈ [Out.sig x], o.clearOk := by
+  intro o ho; simp only [List.mem_singleton] at ho; subst ho; trivial
+
+theorem allOk_of_NCout {os : List Out} (h : NCout os) : ∀ o ∈ os, o.clearOk := NCout.clearOk h
+
+theorem socketClose_connected (s : St) (hc : s.conn = .connected) :
+    (∀ o ∈ (socketClose s).2, o.clearOk) ∧ NC (socketClose s).1 := by
+  rcases socketClose_spec s with h | h
+  · exact h
+  · exact absurd hc h.1
+
+theorem disconnectFromHost_connected (s : St) (hc : s.conn = .connected) :
+    (∀ o ∈ (disconnectFromHost s).2, o.clearOk) ∧ NC (disconnectFromHost s).1 := by
+  unfold disconnectFromHost
+  exact socketClose_connected _ hc
+
+theorem reject_connected (s : St) (hc : s.conn = .connected) :
+    (∀ o ∈ (reject s).2, o.clearOk) ∧ NC (reject s).1 := by
+  unfold reject
+  have h := disconnectFromHost_connected s hc
+  refine ⟨?_, h.2⟩
+  intro o ho
+  rcases List.mem_cons.mp ho with ho | ho
+  · subst ho; trivial
+  · exact h.1 o ho
+
+theorem send_preTls_ok (s : St) (k : Kind) (hk : k.preTlsOk = true) : (send s k).clearOk := by
+  unfold send link
+  split <;> (try split) <;> simp [Out.clearOk, hk]
+
+/-- with TLS required and the link unencrypted, `handleStarttls` always acts -/
+theorem handleStarttls_required (s : St) (f : Features) (hreq : s.cfg.tls = .required) (he : s.encrypted = false) :
+    handleStarttls s f = some (disconnectFromHost s) ∨
+    handleStarttls s f = some ({ s with listener := .starttls }, [send s .startTls]) := by
+  unfold handleStarttls
+  simp only [he, hreq]
+  by_cases ha : f.tls = .absent
+  · simp [ha]
+  · by_cases hl : s.cfg.localTls = true
+    · simp [ha, hl]
+    · simp [ha, hl]
+
+theorem idle_clear (s : St) (e : El) (hreq : s.cfg.tls = .required) (hc : s.conn = .connected)
+    (he : s.encrypted = false) (hl : s.listener = .idle) (h2 : noEarlyIqRequest s (.recv e)) :
+    (∀ o ∈ (idleHandle s e).2, o.clearOk) ∧ Inv (idleHandle s e).1 := by
+  have hnnc : ¬ NC s := by intro h; have := h hc; simp [he] at this
+  have hsame : Inv s := Or.inr (Or.inl hl)
+  unfold idleHandle
+  split
+  · -- features
+    rename_i f
+    unfold handleFeatures
+    rcases handleStarttls_required s f hreq he with h | h
+    · rw [h]
+      have := disconnectFromHost_connected s hc
+      exact ⟨this.1, Or.inl this.2⟩
+    · rw [h]
+      refine ⟨?_, Or.inr (Or.inr rfl)⟩
+      intro o ho
+      simp only [List.mem_singleton] at ho
+      subst ho
+      exact send_preTls_ok s _ rfl
+  · have := socketClose_connected { s with redirect := true } hc
+    exact ⟨this.1, Or.inl this.2⟩
+  · exact ⟨sig_ok _, hsame⟩
+  · exact absurd h2 hnnc
+  · exact absurd h2 hnnc
+  · split
+    · exact ⟨nil_ok, hsame⟩
+    · exact ⟨sig_ok _, Or.inr (Or.inl hl)⟩
+  · exact ⟨nil_ok, hsame⟩
+  · exact ⟨nil_ok, hsame⟩
+  · exact ⟨nil_ok, hsame⟩
+  · have := reject_connected s hc
+    exact ⟨this.1, Or.inl this.2⟩
+
+theorem starttls_clear (s : St) (e : El) (hc : s.conn = .connected) :
+    (∀ o ∈ (starttlsHandle s e).2, o.clearOk) ∧ Inv (starttlsHandle s e).1 := by
+  unfold starttlsHandle
+  split
+  · have := handleStart_nc { s with encrypted := true, headerSeen := false, listener := .idle } (by intro _; rfl)
+    exact ⟨allOk_of_NCout this.1, Or.inl this.2⟩
+  · have hd := onSocketDisconnected_down { s with conn := .disconnected, listener := .idle } rfl
+    exact ⟨allOk_of_NCout (NCout.cons (sig_nc _) hd.1), Or.inl (nc_of_not_connected hd.2)⟩
+  · have := reject_connected s hc
+    exact ⟨this.1, Or.inl this.2⟩
+
+/-- one step keeps the invariant and sends nothing but stream open / starttls / stream close in clear -/
+theorem step_safe (s : St) (e : Ev) (hreq : s.cfg.tls = .required) (hinv : Inv s)
+    (h1 : versionedHeader s e) (h2 : noEarlyIqRequest s e) (h3 : appWaits s e) :
+    (∀ o ∈ (step s e).2, o.clearOk) ∧ Inv (step s e).1 := by
+  by_cases hnc : NC s
+  · -- nothing can be clear, except the stream open of a new connection
+    cases e with
+    | connectToServer =>
+      have hd : s.conn = .disconnected := h3
+      simp only [step, hd, if_true]
+      exact ⟨nil_ok, Or.inl (nc_of_not_connected (by simp))⟩
+    | socketConnected =>
+      simp only [step]
+      split
+      · refine ⟨?_, Or.inr (Or.inl rfl)⟩
+        intro o ho
+        simp only [handleStart, List.mem_singleton] at ho
+        subst ho
+        exact send_preTls_ok _ _ rfl
+      · exact ⟨nil_ok, Or.inl hnc⟩
+    | socketError =>
+      exact ⟨sig_ok _, Or.inl hnc⟩
+    | socketDisconnected =>
+      simp only [step]
+      split
+      · have hd := onSocketDisconnected_down { s with conn := .disconnected } rfl
+        exact ⟨allOk_of_NCout hd.1, Or.inl (nc_of_not_connected hd.2)⟩
+      · split
+        · exact ⟨nil_ok, Or.inl (nc_of_not_connected (by simp))⟩
+        · exact ⟨nil_ok, Or.inl hnc⟩
+    | recv el =>
+      have := recv_nc el s hnc
+      exact ⟨allOk_of_NCout this.1, Or.inl this.2⟩
+    | sendIq =>
+      have := sendIq_nc s hnc
+      exact ⟨allOk_of_NCout this.1, Or.inl this.2⟩
+  · -- connected and unencrypted
+    have hc : s.conn = .connected := by
+      by_cases hc : s.conn = .connected
+      · exact hc
+      · exact absurd (nc_of_not_connected hc) hnc
+    have he : s.encrypted = false := by
+      cases hb : s.encrypted
+      · rfl
+      · exact absurd (fun _ => hb) hnc
+    have hpre : PreTls s := by
+      rcases hinv with h | h
+      · exact absurd h hnc
+      · exact h
+    cases e with
+    | connectToServer =>
+      have hd : s.conn = .disconnected := h3
+      rw [hc] at hd; cases hd
+    | socketConnected =>
+      simp only [step, hc]
+      exact ⟨nil_ok, Or.inr hpre⟩
+    | socketError =>
+      exact ⟨sig_ok _, Or.inr hpre⟩
+    | socketDisconnected =>
+      simp only [step, hc, if_true]
+      have hd := onSocketDisconnected_down { s with conn := .disconnected } rfl
+      exact ⟨allOk_of_NCout hd.1, Or.inl (nc_of_not_connected hd.2)⟩
+    | sendIq => exact absurd h3 hnc
+    | recv el =>
+      simp only [step]
+      unfold recv
+      split
+      · exact ⟨nil_ok, Or.inr hpre⟩
+      · split
+        · -- header
+          rename_i v i
+          have hv : v = true := by
+            rcases h1 with h | h
+            · exact absurd h hnc
+            · exact h
+          subst hv
+          unfold handleStream
+          dsimp only
+          split
+          · exact ⟨nil_ok, Or.inr hpre⟩
+          · simp only [not_true_eq_false, false_and, if_false]
+            exact ⟨nil_ok, Or.inr hpre⟩
+        · split
+          · exact ⟨nil_ok, Or.inr hpre⟩
+          · split
+            · have := disconnectFromHost_connected s hc
+              exact ⟨this.1, Or.inl this.2⟩
+            · unfold dispatch
+              rcases hpre with hl | hl
+              · rw [hl]
+                exact idle_clear s el hreq hc he hl h2
+              · rw [hl]
+                exact starttls_clear s el hc
+
+/-- the invariant and the property along a whole run -/
+theorem run_safe (evs : List Ev) (s : St) (hreq : s.cfg.tls = .required) (hinv : Inv s)
+    (h1 : Along versionedHeader s evs) (h2 : Along noEarlyIqRequest s evs) (h3 : Along appWaits s evs) :
+    ∀ o ∈ (run s evs).2, o.clearOk := by
+  induction evs generalizing s with
+  | nil => intro o ho; cases ho
+  | cons e es ih =>
+    have hs := step_safe s e hreq hinv h1.1 h2.1 h3.1
+    intro o ho
+    simp only [run] at ho
+    rcases List.mem_append.mp ho with ho | ho
+    · exact hs.1 o ho
+    · exact ih (step s e).1 (by simpa using hreq) hs.2 h1.2 h2.2 h3.2 o ho
+
+theorem init_inv (cfg : Cfg) : Inv (init cfg) := Or.inl (nc_of_not_connected (by simp [init]))
+
+/-! ### `redirect` is consumed in the step that sets it -/
+
+macro "red_crush" : tactic => `(tactic| ((repeat' split) <;> simp_all))
+
+theorem sendStanza_red (s : St) (k : Kind) (h : s.redirect = false) : (sendStanza s k).1.redirect = false := by
+  unfold sendStanza; red_crush
+theorem enableAck_red (s : St) (h : s.redirect = false) : (enableAck s).1.redirect = false := h
+theorem closeSession_red (s : St) (h : s.redirect = false) : (closeSession s).1.redirect = false := h
+/-- whatever `redirect` was, it is false afterwards -/
+theorem onSocketDisconnected_red (s : St) : (onSocketDisconnected s).1.redirect = false := by
+  unfold onSocketDisconnected closeSession; dsimp only; split <;> simp_all
+theorem socketClose_red_conn (s : St) (hc : s.conn = .connected) : (socketClose s).1.redirect = false := by
+  unfold socketClose; simp [hc, onSocketDisconnected_red]
+theorem socketClose_red (s : St) (h : s.redirect = false) : (socketClose s).1.redirect = false := by
+  unfold socketClose; split
+  · simp [onSocketDisconnected_red]
+  · exact h
+theorem disconnectFromHost_red (s : St) (h : s.redirect = false) : (disconnectFromHost s).1.redirect = false := by
+  unfold disconnectFromHost; exact socketClose_red _ h
+theorem reject_red (s : St) (h : s.redirect = false) : (reject s).1.redirect = false := by
+  unfold reject; exact disconnectFromHost_red s h
+theorem failAuth_red (s : St) (h : s.redirect = false) : (failAuth s).1.redirect = false := by
+  unfold failAuth; exact disconnectFromHost_red s h
+theorem csiSendState_red (s : St) (h : s.redirect = false) : (csiSendState s).1.redirect = false := by
+  unfold csiSendState; red_crush
+theorem csiOnSessionOpened_red (s : St) (b : Bool) (h : s.redirect = false) : (csiOnSessionOpened s b).1.redirect = false := by
+  unfold csiOnSessionOpened
+  split
+  · split
+    · exact h
+    · exact csiSendState_red s h
+  · split
+    · exact h
+    · exact csiSendState_red s h
+theorem openSession_red (s : St) (h : s.redirect = false) : (openSession s).1.redirect = false := by
+  unfold openSession
+  dsimp only
+  have h2 : (if ({ s with sessionStarted := true, bind2Bound := false } : St).smResumed = true
+      then ({ s with sessionStarted := true, bind2Bound := false } : St)
+      else { ({ s with sessionStarted := true, bind2Bound := false } : St) with pendingIq := 0 }).redirect = false := by
+    split <;> exact h
+  generalize (if ({ s with sessionStarted := true, bind2Bound := false } : St).smResumed = true
+      then ({ s with sessionStarted := true, bind2Bound := false } : St)
+      else { ({ s with sessionStarted := true, bind2Bound := false } : St) with pendingIq := 0 }) = s2 at h2
+  have h3 := csiOnSessionOpened_red s2 s.bind2Bound h2
+  generalize csiOnSessionOpened s2 s.bind2Bound = r3 at h3
+  have h4 : (if r3.1.authenticated = true then sendStanza r3.1 (.iqRequest true) else (r3.1, [])).1.redirect = false := by
+    split
+    · exact sendStanza_red _ _ h3
+    · exact h3
+  generalize (if r3.1.authenticated = true then sendStanza r3.1 (.iqRequest true) else (r3.1, [])) = r4 at h4
+  split
+  · exact sendStanza_red _ _ h4
+  · exact h4
+theorem handleStart_red (s : St) (h : s.redirect = false) : (handleStart s).1.redirect = false := h
+theorem startNonSaslAuth_red (s : St) (h : s.redirect = false) : (startNonSaslAuth s).1.redirect = false := h
+theorem handleStream_red (s : St) (v i : Bool) (h : s.redirect = false) : (handleStream s v i).1.redirect = false := by
+  unfold handleStream startNonSaslAuth; dsimp only; red_crush
+theorem startSasl_red (s : St) (m : Mech) (h : s.redirect = false) : (startSasl s m).1.redirect = false := by
+  unfold startSasl
+  split
+  · exact h
+  · exact disconnectFromHost_red _ h
+theorem startSasl2_red (s : St) (z : S2Feat) (h : s.redirect = false) : (startSasl2 s z).1.redirect = false := by
+  unfold startSasl2
+  dsimp only
+  have h1 : (if z.bind2 = true then { s with bind2InactiveSet := s.cfg.inactive && z.bind2Ext } else s).redirect = false := by
+    split <;> exact h
+  generalize (if z.bind2 = true then { s with bind2InactiveSet := s.cfg.inactive && z.bind2Ext } else s) = s1 at h1
+  split
+  · exact h1
+  · exact disconnectFromHost_red _ h1
+theorem handleStarttls_red (s : St) (f : Features) (h : s.redirect = false) :
+    ∀ r, handleStarttls s f = some r → r.1.redirect = false := by
+  intro r hr
+  unfold handleStarttls at hr
+  repeat' split at hr
+  all_goals first | (cases hr; done) | (cases hr; first | exact disconnectFromHost_red s h | exact h)
+theorem handleFeatures_red (s : St) (f : Features) (h : s.redirect = false) : (handleFeatures s f).1.redirect = false := by
+  unfold handleFeatures
+  split
+  · rename_i r hr; exact handleStarttls_red s f h r hr
+  · split
+    · exact startSasl2_red _ _ h
+    · split
+      · exact startSasl_red _ _ h
+      · split
+        · exact h
+        · dsimp only
+          split
+          · exact h
+          · split
+            · exact h
+            · split
+              · exact h
+              · exact openSession_red _ h
+theorem onSmEnabled_red (s : St) (b : Bool) (h : s.redirect = false) : (onSmEnabled s b).1.redirect = false := h
+theorem onSmResumed_red (s : St) (h : s.redirect = false) : (onSmResumed s).1.redirect = false := h
+
+/-- the idle listener is only run on a connected socket (`recv`) -/
+theorem idleHandle_red (s : St) (e : El) (hc : s.conn = .connected) (h : s.redirect = false) :
+    (idleHandle s e).1.redirect = false := by
+  unfold idleHandle
+  split
+  · exact handleFeatures_red _ _ h
+  · exact socketClose_red_conn _ hc
+  · exact h
+  · exact sendStanza_red _ _ h
+  · exact sendStanza_red _ _ h
+  · split <;> exact h
+  · exact h
+  · exact h
+  · exact h
+  · exact reject_red s h
+theorem starttlsHandle_red (s : St) (e : El) (h : s.redirect = false) : (starttlsHandle s e).1.redirect = false := by
+  unfold starttlsHandle
+  split
+  · exact h
+  · exact onSocketDisconnected_red _
+  · exact reject_red s h
+theorem nonSaslHandle_red (s : St) (e : El) (h : s.redirect = false) : (nonSaslHandle s e).1.redirect = false := by
+  unfold nonSaslHandle
+  split
+  · split
+    · exact h
+    · exact disconnectFromHost_red s h
+  · exact disconnectFromHost_red s h
+  · exact reject_red s h
+theorem saslHandle_red (s : St) (m : Used) (fr : Bool) (e : El) (h : s.redirect = false) :
+    (saslHandle s m fr e).1.redirect = false := by
+  unfold saslHandle
+  split
+  · exact h
+  · split
+    · exact h
+    · exact failAuth_red s h
+  · exact failAuth_red s h
+  · exact reject_red s h
+theorem sasl2Handle_red (s : St) (m : Used) (fr : Bool) (e : El) (h : s.redirect = false) :
+    (sasl2Handle s m fr e).1.redirect = false := by
+  unfold sasl2Handle
+  split
+  · split
+    · exact h
+    · exact failAuth_red s h
+  · rename_i b r tok
+    dsimp only
+    have h1 : ({ s with authenticated := true, bind2Bound := decide (b ≠ S2Bound.none),
+                          hasToken := s.hasToken || (tok && (s.tokenRequested || s.hasToken)) } : St).redirect = false := h
+    generalize ({ s with authenticated := true, bind2Bound := decide (b ≠ S2Bound.none),
+                          hasToken := s.hasToken || (tok && (s.tokenRequested || s.hasToken)) } : St) = s1 at h1
+    have h2 : (if r = .resumed then onSmResumed s1 else (s1, [])).1.redirect = false := by
+      split <;> exact h1
+    generalize (if r = .resumed then onSmResumed s1 else (s1, [])) = r2 at h2
+    have h3 : (if b = .smEnabled then onSmEnabled r2.1 true else (r2.1, [])).1.redirect = false := by
+      split <;> exact h2
+    generalize (if b = .smEnabled then onSmEnabled r2.1 true else (r2.1, [])) = r3 at h3
+    split
+    · exact openSession_red _ h3
+    · exact h3
+  · exact failAuth_red s h
+  · exact h
+  · exact reject_red s h
+theorem smResumeHandle_red (s : St) (e : El) (h : s.redirect = false) : (smResumeHandle s e).1.redirect = false := by
+  unfold smResumeHandle
+  split
+  · exact openSession_red _ (onSmResumed_red s h)
+  · split
+    · exact h
+    · exact openSession_red _ h
+  · exact reject_red s h
+theorem smEnableHandle_red (s : St) (e : El) (h : s.redirect = false) : (smEnableHandle s e).1.redirect = false := by
+  unfold smEnableHandle
+  split
+  · exact openSession_red _ (onSmEnabled_red s _ h)
+  · exact openSession_red _ h
+  · exact reject_red s h
+theorem bindHandle_red (s : St) (e : El) (h : s.redirect = false) : (bindHandle s e).1.redirect = false := by
+  unfold bindHandle
+  split
+  · split
+    · exact h
+    · exact openSession_red _ h
+  · exact failAuth_red s h
+  · exact failAuth_red s h
+  · exact reject_red s h
+theorem dispatch_red (s : St) (e : El) (hc : s.conn = .connected) (h : s.redirect = false) :
+    (dispatch s e).1.redirect = false := by
+  unfold dispatch
+  split
+  · exact idleHandle_red s e hc h
+  · exact starttlsHandle_red s e h
+  · exact nonSaslHandle_red s e h
+  · exact saslHandle_red s _ _ e h
+  · exact reject_red s h
+  · exact sasl2Handle_red s _ _ e h
+  · exact reject_red s h
+  · exact smResumeHandle_red s e h
+  · exact smEnableHandle_red s e h
+  · exact bindHandle_red s e h
+theorem recv_red (s : St) (e : El) (h : s.redirect = false) : (recv s e).1.redirect = false := by
+  unfold recv
+  split
+  · exact h
+  · rename_i hcw
+    have hc : s.conn = .connected := by
+      by_cases hc : s.conn = .connected
+      · exact hc
+      · exact absurd (Or.inl hc) hcw
+    split
+    · exact handleStream_red _ _ _ h
+    · split
+      · exact h
+      · split
+        · exact disconnectFromHost_red s h
+        · exact dispatch_red s e hc h
+theorem sendIq_red (s : St) (h : s.redirect = false) : (sendIq s).1.redirect = false := by
+  unfold sendIq
+  dsimp only
+  split
+  · exact sendStanza_red _ _ h
+  · exact sendStanza_red _ _ h
+theorem step_red (s : St) (e : Ev) (h : s.redirect = false) : (step s e).1.redirect = false := by
+  cases e with
+  | connectToServer => simp only [step]; split <;> exact h
+  | socketConnected => simp only [step]; split <;> exact h
+  | socketError => exact h
+  | socketDisconnected =>
+    simp only [step]
+    split
+    · exact onSocketDisconnected_red _
+    · split <;> exact h
+  | recv el => exact recv_red s el h
+  | sendIq => exact sendIq_red s h
+theorem run_red (evs : List Ev) (s : St) (h : s.redirect = false) : (run s evs).1.redirect = false := by
+  induction evs generalizing s with
+  | nil => exact h
+  | cons e es ih => simp only [run]; exact ih _ (step_red s e h)
+
+/-- features that rule out TLS, received by an idle, connected, unencrypted client that requires TLS -/
+theorem tls_unavailable_core (s : St) (f : Features) (hreq : s.cfg.tls = .required)
+    (hc : s.conn = .connected) (he : s.encrypted = false) (hh : s.headerSeen = true) (hw : s.wedged = false)
+    (hl : s.listener = .idle) (hred : s.redirect = false)
+    (hf : f.tls = .absent ∨ s.cfg.localTls = false) :
+    (step s (.recv (.features f))).2 = .sent .streamClose .clear :: (iqDones s.pendingIq ++ [.sig .disconnected]) ∧
+    (step s (.recv (.features f))).1.conn = .disconnected ∧ (step s (.recv (.features f))).1.sessionStarted = false ∧
+    (step s (.recv (.features f))).1.authenticated = false ∧ (step s (.recv (.features f))).1.pendingIq = 0 := by
+  have hst : handleStarttls s f = some (disconnectFromHost s) := by
+    unfold handleStarttls
+    simp only [he, hreq]
+    rcases hf with hf | hf
+    · simp [hf]
+    · by_cases ha : f.tls = .absent <;> simp [ha, hf]
+  have hr : step s (.recv (.features f)) = disconnectFromHost s := by
+    simp only [step, recv, hc, hw, hh, dispatch, hl, idleHandle, handleFeatures, hst]
+    simp
+  rw [hr]
+  simp [disconnectFromHost, socketClose, onSocketDisconnected, closeSession, hc, hred, send, link, he]
+
 end Qx.C04
